@@ -3,7 +3,7 @@
  *
  *   new <C01|C02> <lines> <cols> <a|p|r|m|x> <pen>        terminal + root window (id 0); scroll oracle accept/partial/refuse,
  *                                                         or m: the library's own mock terminal instead of the grid driver
- *                                                         (no resize / scrollmode then),
+ *                                                         (no scrollmode then; `resize` calls tickit_mockterm_resize),
  *                                                         or x: the library's xterm driver (tickit_term_build, termtype
  *                                                         "xterm", an output function): no grid is printed, every
  *                                                         observation ends with X=<the bytes the terminal was sent during
@@ -21,8 +21,12 @@
  *                                    with set_geometry, nothing exposed (tickit_window_scroll.3: "does not actually move the child windows")
  *   resize <lines> <cols> | scrollmode <a|p|r> | flush
  *   pen: pen=N (NULL) | pen=fg:bg:b[:rv] with each field an integer or x (absent)
- *   instr: P | E:t:l:n:k | T:l:c:hex | C:l:c:cp | S:t:l:n:k | K | N:bg:b[:rv] | X:d:r | L:t:l:n:k
+ *   instr: P | E:t:l:n:k | T:l:c:hex | F:l:c:pad:hex | C:l:c:cp | S:t:l:n:k | K | N:bg:b[:rv] | X:d:r | L:t:l:n:k
  *          | e:dt:dl:dn:dk | t:dl:dc:hex | c:dl:dc:cp | s:dt:dl:dn:dk      (lower case: relative to the handed rectangle)
+ *          | F:l:c:pad:hex | f:dl:dc:pad:hex              tickit_renderbuffer_textf_at(rb, l, c, "%*s", pad, <the bytes>): the
+ *                                                        formatted result is the bytes right-justified in a field of pad BYTES
+ *                                                        (pad >= 0; results of 64 bytes and more take put_vtextf's second path,
+ *                                                        through the buffer's scratch area rb->tmp)
  *          | H:line:c0:c1:style:caps | I:l0:l1:col:style:caps               hline_at / vline_at (h, i: relative); style 1..3
  *          | Y:dt:dl:st:sl:n:k | M:dt:dl:st:sl:n:k       tickit_renderbuffer_copyrect / moverect(dest at dt,dl; src st,sl,n,k),
  *                                                        coordinates as the library takes them (the source in buffer
@@ -362,6 +366,18 @@ static void run_prog(int id, const char *prog, const TickitRect *rect, TickitRen
           if(n >= 0) free(bytes);
         }
         break;
+      case 'F': case 'f':
+        if(nf == 5 && atoi(f[3]) >= 0 && atoi(f[3]) <= 4096) {
+          unsigned char *bytes; long n = hex_decode(f[4], &bytes);
+          if(n > 0 && !memchr(bytes, 0, n)) {
+            char *str = malloc(n + 1);
+            memcpy(str, bytes, n); str[n] = 0;
+            tickit_renderbuffer_textf_at(rb, bt + atoi(f[1]), bl + atoi(f[2]), "%*s", atoi(f[3]), str);
+            free(str);
+          }
+          if(n >= 0) free(bytes);
+        }
+        break;
       case 'C': case 'c':
         if(nf == 4) tickit_renderbuffer_char_at(rb, bt + atoi(f[1]), bl + atoi(f[2]), atoi(f[3]));
         break;
@@ -692,8 +708,18 @@ static void engine_op(int argc, char **argv)
   }
   if(strcmp(op, "resize") == 0 && argc == 3) {
     int lines = atoi(argv[1]), cols = atoi(argv[2]);
-    if(lines < 1 || cols < 1 || lines > 64 || cols > 200 || mt) { obs("bad-op"); return; }
-    if(xmode) tickit_term_set_size(tt, lines, cols);
+    if(lines < 1 || cols < 1 || lines > 64 || cols > 200) { obs("bad-op"); return; }
+    if(mt) {
+      /* the mock terminal gives the cells it gains the pen in force (mtd_clear_cells: mtd->pen, whatever the last flush
+       * left there): the application resizes with the default pen set, so that gained cells are plain blanks as on a
+       * fresh terminal; cells of the area both sizes share must stay as they are (mockterm.c: "newlinecells[col] =
+       * mtd->cells[line][col]") */
+      TickitPen *plain = tickit_pen_new();
+      tickit_term_setpen(tt, plain);
+      tickit_pen_unref(plain);
+      tickit_mockterm_resize(mt, lines, cols);
+    }
+    else if(xmode) tickit_term_set_size(tt, lines, cols);
     else griddrv_resize(gd, tt, lines, cols);
     finish(0, 0, 1);
     return;
